@@ -17,6 +17,11 @@
 //	free histories      real replica loops, 3 writers, whole flush jobs and log Sync/GC running freely; every 4th
 //	                    operation imaged
 //	directed histories  minimal reproductions of the genuine findings (directed.go)
+//	fault-job histories an I/O fault - not a crash - inside a real flush job (faultjob.go): one file-system operation of
+//	                    the metadata flush or of a shard's index flush fails (position stratified over the id sequence
+//	                    sync and create / write / close / manifest write / manifest sync of each dictionary and index
+//	                    store), the node keeps running, entries with new names arrive strictly between the jobs, 0-2
+//	                    further successful jobs; every operation from the failing job on is a crash point
 //
 // Every image is recovered in another child process (engine load, WriteAheadLogManager.Recovery - which must rebuild the
 // local replicators -, replay until consumed = appended, flush) and checked against the ledger of the history:
@@ -31,11 +36,14 @@
 //	      an entry with brand-new names appended after recovery returns exactly its own row.
 //
 // Rows inside the window of the node flush protocol (see verifier.inHole) and rows whose names now carry an id of such
-// a row get the classes C07/flush-protocol-window/* (open finding); everything else is strict. An unexpected verdict is
+// a row get the classes C07/flush-protocol-window/* (open finding); everything else is strict. Rows applied strictly
+// between two flush jobs are never window rows: when they are lost around a failed metadata / index flush they get
+// C07/flushed-data-unresolvable/applied-between-flush-jobs/* (family data flushed by the job whose index flush failed;
+// names created after a failed flush and not stored by its successful retry). An unexpected verdict is
 // checked by a second recovery of a pristine copy of the image and by repeating the query (2 of 3).
 //
 // By hand: LOG_LEVEL=fatal TZ=UTC VERIF_SEED=n VERIF_C07_T0=<ms> bin/c07 hist <idx> <dir> quick|thorough
-// (VERIF_C07_MODE=free for idx >= 1000; idx 2000/2001 = directed), then
+// (VERIF_C07_MODE=free for idx in 1000..1999; idx 2000..2003 = directed, idx 3000+n = fault-job; VERIF_C07_TRACE=1 prints every operation), then
 // [VERIF_C07_VERBOSE=1 VERIF_C07_KEEP=1] bin/c07 verify <dir>/ledger.json <from> <to> <out.jsonl>;
 // bin/c07 inspect <ledger.json> <node dir> ["sql"] prints what dictionaries and index resolve; bin/c07 plan <idx> <tier>.
 package main
@@ -245,7 +253,10 @@ func parent() {
 		"file-system operations inside the steps (among them a new tag key / field while its schema table is being closed), a drain + an idle cycle " +
 		"followed by new names, data flushes started between (or concurrently with) the replicator's WriteRows and its CommitSequence, log Sync/GC, " +
 		"a tail of entries that stay in the log; (free) real replica loops, 3 writers, whole flush jobs and log Sync/GC all running freely, every " +
-		"4th operation imaged; (directed) two minimal reproductions. " +
+		"4th operation imaged; (directed) minimal reproductions; (fault-job) a file-system operation of the metadata flush or of a shard's index flush " +
+		"of a real flush job fails (position stratified over the id sequence sync and create/write/close/manifest-write/manifest-sync of the ns, metric, schema, tv " +
+		"and metric-inverted, forward, inverted, series stores), the node keeps running, entries with new names arrive strictly between the jobs, 0-2 further " +
+		"successful jobs, every operation from the failing job on imaged. " +
 		"Non-trivial = image strictly inside a flush step or a WriteLog (after its first and before its last file-system event), or an image whose " +
 		"recovered log acknowledgement is behind the stored sequence; distinct by (history, image content hash).")
 	c.Assume("process-kill fault model: page cache and dirty shared mappings survive, user-space buffers are lost; torn 8-byte stores are not modelled")
@@ -269,6 +280,10 @@ func parent() {
 	}
 	for i := 0; i < 4; i++ { // deterministic minimal reproductions of the genuine findings
 		jobs = append(jobs, histJob{directedBase + i, "step"})
+	}
+	nFault := c.Pick(4, 30)
+	for i := 0; i < nFault; i++ { // an I/O fault inside the metadata / index flush of a real flush job, the node keeps running
+		jobs = append(jobs, histJob{faultBase + i, "step"})
 	}
 	scratch := c.Scratch()
 	slots := runtime.NumCPU()
@@ -327,7 +342,11 @@ func parent() {
 		var spans []span
 		// directed histories: the images of the node set-up are covered by the generated histories
 		startAt := 0
-		if j.idx >= directedBase {
+		if j.idx >= faultBase {
+			// fault-job histories: the prelude (node set-up, first names, a complete job) is covered by the generated histories
+			startAt = L.VerifyFrom
+			c.Count("histories.fault-job", 1)
+		} else if j.idx >= directedBase {
 			startAt = len(L.Images)
 			for _, e := range L.Entries {
 				if e.First >= 0 && e.First < startAt {
@@ -443,6 +462,16 @@ func parent() {
 	}
 	if c.Counter("driven.arrivals_at_fs_operations_of_a_flush") == 0 {
 		c.Inconclusive("no rows arrived at a file-system operation inside a flush step")
+	}
+	if c.Counter("driven.fault_job.meta_flush_failed_by_an_injected_io_error") == 0 || c.Counter("driven.fault_job.index_flush_failed_by_an_injected_io_error") == 0 {
+		c.Inconclusive("no flush job ran with a failing metadata flush / with a failing index flush (metadata %d, index %d)",
+			c.Counter("driven.fault_job.meta_flush_failed_by_an_injected_io_error"), c.Counter("driven.fault_job.index_flush_failed_by_an_injected_io_error"))
+	}
+	left := c.Counter("required_rows_with_names_a_failed_metadata_flush_left_behind") + c.Counter("required_rows_with_names_a_failed_index_flush_left_behind")
+	retried := c.Counter("required_rows_with_names_created_after_a_failed_metadata_flush_and_covered_by_its_retry") +
+		c.Counter("required_rows_with_names_created_after_a_failed_index_flush_and_covered_by_its_retry")
+	if left == 0 || retried == 0 {
+		c.Inconclusive("no image was judged between a failed metadata / index flush and its retry (%d required rows) or after the successful retry with names created in between (%d required rows)", left, retried)
 	}
 	if c.Counter("entries_replayed") == 0 || c.Counter("images_with_ack_behind_stored_sequence") == 0 {
 		c.Inconclusive("recoveries never replayed an entry / no image had the log acknowledgement behind the stored sequence")
